@@ -5,7 +5,8 @@ from .lib import scenario, dense, tt_input, prod
 def _abs2sum(E, xd):
     tn = E.tn
     if xd.is_complex():
-        return tn.sum(tn.real(xd * tn.conj(xd)))
+        re, im = tn.real(xd), tn.imag(xd)
+        return tn.sum(re * re + im * im)        # literally a sum of squares
     return tn.sum(xd * xd)
 
 
